@@ -509,3 +509,72 @@ def seeded_job(job: dict) -> dict:
         out["runs"].append({"level": float(ph[dim][k]), "own_stream_photon": bool(np.allclose(a, ref1, rtol=0, atol=1e-12)),
                             "own_stream_signal": bool(np.array_equal(b, ref2))})
     return out
+
+
+# ---------------------------------------------------------------------------
+# flux pipelines swept through the observation modes (C17 / C05): every run is an exposure of its own
+
+def flux_sweep_job(job: dict) -> dict:
+    """Observation over [illumination level, readout times] (in the given declaration order) of a pipeline of
+    REAL flux models; returns one PipelineTrace trace per run: the run's configuration (rate per tick, its own
+    single readout time) and the projected buckets the result holds under the run's labels."""
+    import copy
+
+    import dask
+    import numpy as np
+    import pyxel
+    from pyxel.exposure import Readout
+    from pyxel.observation import Observation, ParameterValues
+    bases, tlist, order = job["bases"], job["times"], job.get("order", "level-first")
+    empty = {b: px.EMPTY for b in px.BUCKETS}
+    cfg0 = {"pipe": [[] for _ in range(10)], "times": [tlist[0]], "start": 0, "nd": False, "prior": empty,
+            "imgdt": "uint16", "stored": empty}
+    cfg0["pipe"][1] = [{"name": "ill", "enabled": True, "args": "a", "kind": "flux", "b": "photon", "base": bases[0], "mask": -1}]
+    cfg0["pipe"][3] = [{"name": "conv", "enabled": True, "args": "b", "kind": "conv", "b": "charge", "base": 2, "mask": -1}]
+    cfg0["pipe"][4] = [{"name": "coll", "enabled": True, "args": "d", "kind": "collect", "b": "pixel", "base": 0, "mask": -1}]
+    pipe = px.build_pipeline(cfg0, None, real=0, shape=(2, 3))
+    det = px.make_detector("ccd", 2, 3)
+    p_level = ParameterValues(key="pipeline.photon_collection.ill.arguments.level", values=[float(b * px.TICK) for b in bases])
+    p_times = ParameterValues(key="observation.readout.times", values=[[t / px.TICK] for t in tlist])
+    params = [p_level, p_times] if order == "level-first" else [p_times, p_level]
+    obs_ = Observation(parameters=params, mode="product", with_dask=bool(job.get("dask")),
+                       readout=Readout(times=[job.get("base_time", 1.0)]))
+    dkw = {}
+    if job.get("scheduler"):
+        dkw["scheduler"] = job["scheduler"]
+        if job.get("workers"):
+            dkw["num_workers"] = job["workers"]
+    traces, err = [], ""
+    try:
+        with dask.config.set(**dkw):
+            dt = pyxel.run_mode(obs_, det, pipe, with_inherited_coords=True)
+            if job.get("dask"):
+                dt = dt.compute()
+        ds = dt["/bucket"].to_dataset()
+        for i, b in enumerate(bases):
+            for j, t in enumerate(tlist):
+                sel = ds.isel(level=i)
+                if "readout_time_id" in sel.dims:
+                    sel = sel.isel(readout_time_id=j)
+                # the time coordinate holds floats, or (dask path) the swept one-element tuples
+                tvals = [float(np.ravel(np.asarray(v, dtype=object))[0]) if not isinstance(v, (int, float)) else float(v)
+                         for v in sel["time"].values.tolist()]
+                sel = sel.isel(time=tvals.index(t / px.TICK))
+                res = {}
+                for name in px.ARRAY_BUCKETS:
+                    if name in sel.data_vars:
+                        arr = np.squeeze(np.asarray(sel[name].values))
+                        lvl = px.EMPTY if (arr.dtype.kind == "f" and np.isnan(arr).all()) else px.level_of(arr.astype(float))
+                    else:
+                        lvl = px.EMPTY
+                    res[name] = [{"label": t, "level": int(lvl)}]
+                res.update({"scene": px.EMPTY, "data": px.EMPTY, "imgdt": "uint16"})
+                cfg = copy.deepcopy(cfg0)
+                cfg["pipe"][1][0]["base"] = b
+                cfg["times"] = [t]
+                traces.append({"cfg": cfg, "events": [{"e": "done", "result": res}],
+                               "meta": {"real": 0, "sweep": job, "level_base": b, "time_ticks": t}})
+    except Exception:
+        import traceback
+        err = traceback.format_exc()[-600:]
+    return {"traces": traces, "error": err, "job": job}
